@@ -57,7 +57,7 @@ NeverExpires == \A c \in EColls, k \in EKeys : TRUE
 GenNext ==
     /\ nops < MaxOps
     /\ pk' = [op |-> RandomElement(EOps), coll |-> RandomElement(EColls), key |-> RandomElement(IF RandomElement(1..10) <= 7 THEN {"k1"} ELSE EKeys),
-              e |-> RandomElement({0, 2, 2, 3, 4}), rel |-> RandomElement(1..4) = 1]
+              e |-> IF RandomElement(1..12) = 1 THEN 8 ELSE RandomElement({0, 2, 2, 3, 4}), rel |-> RandomElement(1..4) = 1]
     /\ Do(pk'.op, pk'.coll, pk'.key, pk'.e)
     /\ hist' = Append(hist, pk')
     /\ (nops' < MaxOps \/ PrintT("BEHAVIOUR " \o ToJson(hist')))
